@@ -93,7 +93,7 @@ CHECKS["C14"] = {
 
 CHECKS["C17"] = {
     "id": "C17", "engine": "simfs+crash", "flavour": "asan", "binary": "build/asan/c17", "level": "fault_enumeration",
-    "tiers": {"quick": {"runs": 9000, "batch": 150, "wall_cap": 420}, "thorough": {"runs": 60000, "batch": 100, "wall_cap": 2200}},
+    "tiers": {"quick": {"runs": 9000, "batch": 150, "wall_cap": 420}, "thorough": {"runs": 60000, "batch": 10, "wall_cap": 1500}},
     "rule": "one case = a seeded workload (family, rule, dims, outputs, budget, batch, tolerance/criteria or anisotropic type/weights, initial guess) run by sequential constructSurrogate with a checkpoint file "
             "on the simulated file system, killed 0-3 times (process-kill model: completed writes survive, the in-flight write is torn at a byte offset, user-space buffers are lost) and restarted with a "
             "fresh grid of a different rule; 'sweep' cases enumerate EVERY kill point of the first process (every event boundary; offsets 1, middle, len-1 and a seeded one inside each write), optionally "
